@@ -63,6 +63,14 @@ def register(reg):
 	                           ('ResultsArchiveWriter', '_taxon_to_json', Taxon, ['key'])):
 		reg.contract(RS + f'{cls}.{fn}', types={'self': Rec(RS + cls), 'taxon': T},
 			ensures=[f'len(result) == {len(fields)}'] + [f'result["{f}"] == taxon.{f}' for f in fields])
+	GF = ['key', 'description', 'organism', 'ncbi_db', 'ncbi_id', 'genbank_acc', 'refseq_acc']
+	reg.contract(RS + 'JSONResultsExporter._genome_to_json', types={'self': Rec(RS + 'JSONResultsExporter'), 'genome': Genome},
+		axioms=['forest', 'midx'],
+		requires=['not isnone(genome.taxon)'],
+		# the lineage written for a genome is THAT genome's taxon and all of its ancestors, bottom to top, as they are NOW
+		ensures=[f'len(result) == {len(GF) + 2}'] + [f'result["{f}"] == genome.{f}' for f in GF] + ['result["id"] == genome.genome_id',
+		         'len(result["taxonomy"]) == depth(genome.taxon) + 1',
+		         'forall(j, 0 <= j, j < len(result["taxonomy"]), result["taxonomy"][j] == anc(genome.taxon, j))'])
 	reg.contract(RS + 'ResultsArchiveWriter._genome_to_json', types={'self': Rec(RS + 'ResultsArchiveWriter'), 'genome': Genome},
 		ensures=['len(result) == 1', 'result["key"] == genome.key'])
 
